@@ -223,15 +223,16 @@ def run(tier, seed):
             mm = MOK.match(ma)
             tag = f'opt{opt}'
             # ---- tie: model vs real serialiser
+            tie_ok = True
             if f and mm:
                 if (f.group(1), f.group(2), f.group(3)) != (mm.group(1), mm.group(2), mm.group(3)):
                     mismatches.append((f'files-{tag}', line[:400], f'impl={o[:300]} model={ma[:300]}'))
                     kinds.append('MISMATCH')
-                    continue
+                    tie_ok = False
             elif (f is None) != (mm is None):
                 mismatches.append((f'accept-{tag}', line[:400], f'impl={o[:200]} model={ma[:200]}'))
                 kinds.append('MISMATCH')
-                continue
+                tie_ok = False
             if not f:
                 kinds.append('refused:' + o.split()[-1])
                 # refusal is only legitimate for ids above 255
@@ -245,7 +246,8 @@ def run(tier, seed):
             if nsym > 256:
                 oracle_fail.append(('over-255-not-refused', 'a module with more than 256 symbols was serialised',
                                     dict(request=line, answer=o[:300])))
-            w = int(mm.group(6))
+            # boundary code of the model's run; unknown (None) when the model does not follow the implementation
+            w = int(mm.group(6)) if (mm and tie_ok) else None
             tbl = [] if f.group(1) in ('-', '') else f.group(1).split(',')
             if len(set(tbl)) != len(tbl):
                 oracle_fail.append(('symbol-table-not-injective', 'two ids for one name or one id for two names',
@@ -260,7 +262,7 @@ def run(tier, seed):
             rg, rc, rv = rust.get((ci, opt, 'G'), '<norust>'), rust.get((ci, opt, 'C'), '<norust>'), rust.get((ci, opt, 'V'), '<norust>')
             if rg == 'REJECT' or rc == 'REJECT':
                 kinds.append(f'checker-rejects-w{w}')
-                if w == 0:
+                if w == 0 or (w is None and not mm):
                     oracle_fail.append((f'checker-rejects-public-files:{tag}', 'the checker rejects the gamma/claim file of a module inside the boundary',
                                         dict(request=line, answer=o[:300])))
                 continue
@@ -276,7 +278,7 @@ def run(tier, seed):
             if got_cl != want_cl:
                 oracle_fail.append((f'claims-differ:{tag}', 'published claims differ from the declared claims',
                                     dict(request=line, table=tbl, published=got_cl[:40], declared=want_cl[:40])))
-            if rv != 'ACCEPT' and w == 0 and not info.get('proofs_stripped'):
+            if rv != 'ACCEPT' and w in (0, None) and not info.get('proofs_stripped'):
                 oracle_fail.append((f'verify-rejects:{tag}', 'the three files are not accepted by verify (symbol numbering across files?)',
                                     dict(request=line, answer=o[:400])))
             kinds.append(f'published-w{w}' if w else 'published')
